@@ -752,6 +752,10 @@ func DateSeps(key, arg string) (s1, s2, s3 string, ok bool) {
 	}
 	a := strings.Trim(arg, "'")
 	if key != "datetime" {
+		// the one separator of year2month / date: protected by quotes it may be (or contain) a comma
+		if strings.HasPrefix(arg, "'") && strings.HasSuffix(arg, "'") && len(arg) >= 2 {
+			return a, s2, s3, safeSep(strings.ReplaceAll(a, ",", "-"))
+		}
 		return a, s2, s3, safeSep(a)
 	}
 	parts := strings.Split(a, ",")
